@@ -85,7 +85,9 @@ CHECKS["C13"] = dict(
          "positive violation, and that the violation is determined by the two reported differences, for value x every finite/infinite "
          "bound mix; each scenario replayed through a plan evaluator step (variable bounds, linear rows, non-linear constraints, with and "
          "without dyadic transforms) and a 'last' tracker; Trace_C13 compares every reported difference/violation exactly (also for values "
-         "1/65536 beside a bound). TLAPS proves the three arithmetic facts for ALL integers (proofs/KernelProofs.tla).",
+         "1/65536 beside a bound). TLAPS proves the three arithmetic facts for ALL integers (proofs/KernelProofs.tla)."
+         " A second event per scenario replays the history 'transform object validated with a later configuration' (open known finding). "
+         "Attached specification Basic.tla (medium instance) supplies the clause 'BasicOptimizer reports an infeasible result' (infeasibility through a variable bound or a constraint).",
     note="Integer data in units of 1/65536; bound differences may be absent only if no variable bound is finite.",
     technique="TLA+ specification model-checked with TLC and, for the integer kernel, proved with TLAPS; TLC-generated scenarios replayed into ropt; recorded traces validated against the specification by TLC",
     design="4 (C13)")
@@ -124,7 +126,7 @@ CHECKS["C14"] = dict(
          "evaluation failed, failing results delivered, documented exits, for every request pattern x failing index x failure class "
          "(threshold, emptied filter of each of the four kinds, stddev estimator, perturbations, all-NaN with min_success 0, raising "
          "evaluator) x max_functions x step kind x NaN tolerance x transforms; every scenario runs on a real plan, the recorded "
-         "evaluations and exit are replayed against the model (Trace_C14). The abort/exit-code interplay is covered by the C15 model."
+         "evaluations and exit are replayed against the model (Trace_C14). Attached specification Plan.tla (every third behaviour of the C15 instance: aborts at every delivery, nested plans) supplies the exit-code clauses of aborted and nested steps."
          " Attached specification Basic.tla (BasicOptimizer protocol: callbacks, several run() calls, function cache, budget, tracked best, exit codes, output redirection, descriptors) is model-checked and replayed into the real BasicOptimizer in the same check; this check reports the rejections whose clause it owns.",
     note="Scripted back-end; bounded run length (K<=2 quick, <=4 thorough); parallel batches covered by seeded-change experiments only.",
     design="4 (C14)")
@@ -152,7 +154,7 @@ CHECKS["C17"] = dict(
 
 CHECKS["C16"] = dict(
     text="Repro.tla: schedule machine over reseeding/drawing from the global NumPy generator, other optimizations, re-use of plug-in "
-         "managers and target runs; TLC checks that a target run is a function of (configuration, seed) and that the seed matters, for "
+         "managers, other interpreter processes, prioritised plug-ins, runs nested inside an evaluator call of a run (Nest) and target runs; TLC checks that a target run is a function of (configuration, seed) and that the seed matters, for "
          "every schedule of length 3 (thorough 4), and finds the counterexamples for the as-is switches (run reads the global generator / "
          "left-over state); every schedule is executed in a process with a catalogue of configurations (all sampler methods and options, "
          "several samplers, filters, estimators, masks, deterministic and population optimizers with explicit seed), the full run is "
